@@ -198,7 +198,7 @@ def _compare(a, b, tol, what, bad, ks):
         if ga != gb:
             bad.append(what + ": point group operations differ after reload")
     # R-space matrices compared as maps R -> matrix
-    for key in ("Ham", "AA") if what in ("npz", "_tb.dat") else ("Ham",):
+    for key in ("Ham", "AA") if what in ("npz", "_tb.dat", "_tb.dat+centres") else ("Ham",):
         def conv2(sys_, key_):
             X = sys_.get_R_mat(key_).copy()
             if key_ == "AA":
@@ -236,6 +236,11 @@ def _real_roundtrips(rng, n):
                 s.to_tb_file(tb_file=os.path.join(d, "sys_tb.dat"))
                 s3 = System_R.from_tb_file(tb_file=os.path.join(d, "sys_tb.dat"), berry=True)
                 _compare(s, s3, 1e-7, "_tb.dat", bad, ks)
+                # _tb.dat read with the documented centres override: now the split (centre, on-site position element) is recoverable and must come back
+                s3b = System_R.from_tb_file(tb_file=os.path.join(d, "sys_tb.dat"), berry=True, wannier_centers_cart=s.wannier_centers_cart.copy())
+                _compare(s, s3b, 1e-7, "_tb.dat+centres", bad, ks)
+                if not rnp.allclose(s3b.get_R_mat("AA")[s3b.rvec.iR0], s.get_R_mat("AA")[s.rvec.iR0], atol=1e-6):
+                    bad.append("_tb.dat+centres: AA(R=0) in the system's own convention")
                 # _hr.dat + WT centres
                 s.to_hr_file(seedname=os.path.join(d, "sys"))
                 s4 = System_R.from_hr_file(os.path.join(d, "sys"), real_lattice=s.real_lattice)
